@@ -82,16 +82,29 @@ func parseRaces(log string) (reports []raceReport, blocks int) {
 			if !(strings.Contains(head, " at 0x") && strings.Contains(head, "by ")) {
 				continue // goroutine-creation sections
 			}
+			// the access is named by its first frame inside templ or generated
+			// code (falling back to the innermost frame)
+			var fns []string
 			for _, l := range lines {
 				if strings.HasPrefix(l, "  ") && !strings.HasPrefix(l, "   ") {
 					fn := strings.TrimSpace(l)
 					if i := strings.LastIndex(fn, "("); i > 0 {
 						fn = fn[:i]
 					}
-					tops = append(tops, fn)
+					fns = append(fns, fn)
+				}
+			}
+			if len(fns) == 0 {
+				continue
+			}
+			pick := fns[0]
+			for _, fn := range fns {
+				if strings.Contains(fn, "a-h/templ") || strings.HasPrefix(fn, "main.") {
+					pick = fn
 					break
 				}
 			}
+			tops = append(tops, pick)
 		}
 		sort.Strings(tops)
 		key := "race " + strings.Join(tops, " <-> ")
@@ -381,6 +394,29 @@ func devSetup(c *core.Ctx, b *rcorpus.Built, root string) (string, []string) {
 	return txt, versions
 }
 
+// privateRoot copies the text files into a directory of their own for one
+// driver process (mtimes far in the past, strictly increasing).
+func privateRoot(devRoot, name string) string {
+	root := filepath.Join(devRoot, name)
+	if err := os.MkdirAll(root, 0o755); err != nil {
+		core.Infra("mkdir %s: %v", root, err)
+	}
+	txts, _ := filepath.Glob(filepath.Join(devRoot, "templ_*.txt"))
+	for i, f := range txts {
+		data, err := os.ReadFile(f)
+		if err != nil {
+			core.Infra("read %s: %v", f, err)
+		}
+		dst := filepath.Join(root, filepath.Base(f))
+		if err := os.WriteFile(dst, data, 0o644); err != nil {
+			core.Infra("write %s: %v", dst, err)
+		}
+		t := time.Unix(950_000_000+int64(i)*10, 0)
+		_ = os.Chtimes(dst, t, t)
+	}
+	return root
+}
+
 func Run(c *core.Ctx) {
 	c.Rule = "cases = concurrent phases: G goroutines × M renders over the shared template set (hand-written components with package-level once handles, css classes and script values + seeded random Interp trees), " +
 		"odd goroutines render into faulting writers (hard/short/zero at a random offset, failing expression), every 4th goroutine's writer yields per Write; DefaultBufferSize 8/16/64; with and without the H2 hook installed; " +
@@ -406,22 +442,29 @@ func Run(c *core.Ctx) {
 					p.jobs[i].Rewrite.Path, p.jobs[i].Rewrite.Versions = txt, versions
 				}
 			}
-			p.env = []string{"TEMPL_DEV_MODE=true", "TEMPL_DEV_MODE_ROOT=" + devRoot}
+			root := privateRoot(devRoot, "replay")
+			for i := range p.jobs {
+				if p.jobs[i].Rewrite != nil {
+					p.jobs[i].Rewrite.Path = filepath.Join(root, filepath.Base(txt))
+				}
+			}
+			p.env = []string{"TEMPL_DEV_MODE=true", "TEMPL_DEV_MODE_ROOT=" + root}
 		}
 		procs = []proc{p}
 	} else {
 		comps := mixComps(c)
 		seeds := c.Rand("conc")
-		scale := c.Pick(2, 20)
+		scale := c.Pick(2, 40)
 		type shape struct{ g, m, buf int }
 		shapes := []shape{{4, 5000 * scale, 8}, {16, 2000 * scale, 64}, {64, 600 * scale, 16}}
 		for _, s := range shapes {
 			for _, hook := range []bool{true, false} {
 				name := fmt.Sprintf("g%d-hook%v", s.g, hook)
 				jobs := []rcorpus.Job{{Op: "config", BufSize: s.buf, Gid: true}}
-				// four phases per process: all writers well-behaved / half of the goroutines faulting
-				for ph := 0; ph < 4; ph++ {
-					jobs = append(jobs, rcorpus.Job{Op: "conc", Tag: fmt.Sprintf("%s/ph%d", name, ph), G: s.g, M: s.m / 4, Seed: seeds.Int63n(1 << 40),
+				// 4 (thorough: 8) phases per process, alternating: all writers well-behaved / half of the goroutines faulting
+				nph := c.Pick(4, 8)
+				for ph := 0; ph < nph; ph++ {
+					jobs = append(jobs, rcorpus.Job{Op: "conc", Tag: fmt.Sprintf("%s/ph%d", name, ph), G: s.g, M: s.m / nph, Seed: seeds.Int63n(1 << 40),
 						Comps: comps, Hook: hook, Gid: true, Gosched: true, Fault: ph%2 == 1})
 				}
 				procs = append(procs, proc{name: name, jobs: jobs})
@@ -442,15 +485,15 @@ func Run(c *core.Ctx) {
 				devComps = append(devComps, cp)
 			}
 		}
-		devEnv := []string{"TEMPL_DEV_MODE=true", "TEMPL_DEV_MODE_ROOT=" + devRoot}
 		for _, g := range []int{4, 16} {
 			name := fmt.Sprintf("dev-g%d", g)
+			root := privateRoot(devRoot, name) // the processes must not see each other's rewrites
 			m := 1200 * scale / g * 4
 			jobs := []rcorpus.Job{{Op: "config", BufSize: 64, Gid: true},
 				{Op: "conc", Tag: name + "/steady", G: g, M: m, Seed: seeds.Int63n(1 << 40), Comps: devComps, Hook: g == 4, Gid: true, Gosched: true, Fault: true},
 				{Op: "conc", Tag: name + "/rewrite", G: g, M: m, Seed: seeds.Int63n(1 << 40), Comps: devComps, Hook: g == 4, Gid: true, Gosched: true,
-					Rewrite: &rcorpus.Rewrite{Path: txt, Versions: versions, Dev: devKeys}}}
-			procs = append(procs, proc{name: name, dev: true, env: devEnv, jobs: jobs})
+					Rewrite: &rcorpus.Rewrite{Path: filepath.Join(root, filepath.Base(txt)), Versions: versions, Dev: devKeys}}}
+			procs = append(procs, proc{name: name, dev: true, env: []string{"TEMPL_DEV_MODE=true", "TEMPL_DEV_MODE_ROOT=" + root}, jobs: jobs})
 		}
 	}
 
@@ -512,14 +555,26 @@ func Run(c *core.Ctx) {
 	if c.ReplayFile == "" && c.Get("dev_mode_text_file_rewrites_during_phases") == 0 {
 		c.Inconclusive("no text file was rewritten while renders were running")
 	}
-	// one canonical witness per rule: the process with the fewest goroutines
+	// one canonical witness per rule: the smallest process that showed it
 	groups := map[string][]Case{}
 	for _, v := range viols {
 		groups[v.Rule] = append(groups[v.Rule], v)
 	}
 	for _, rule := range rcorpus.SortedKeys(groups) {
 		vs := groups[rule]
-		sort.SliceStable(vs, func(i, j int) bool { return vs[i].Name < vs[j].Name })
+		size := func(cs Case) int { // normal mode before dev mode, few goroutines first
+			n := 0
+			for _, j := range cs.Jobs {
+				if j.G > n {
+					n = j.G
+				}
+			}
+			if cs.DevMode {
+				n += 1000
+			}
+			return n
+		}
+		sort.SliceStable(vs, func(i, j int) bool { return size(vs[i]) < size(vs[j]) })
 		w := vs[0]
 		key := w.Rule
 		if !strings.HasPrefix(rule, "race ") {
